@@ -111,7 +111,7 @@ def do_verify(d, checks):
         shutil.rmtree(wt, ignore_errors=True)
         # the checks rewrite the translator outputs from the tree under check: put back the
         # committed ones (= /repo's), so that a scratch run can never end up in a commit
-        sh("git -C %s checkout -- coq/Effects_gen.v coq/Bindings_gen.v coq/ParamsDefaults_gen.v coq/CircuitAccess_gen.v coq/Nondet_gen.v" % ROOT)
+        sh("git -C %s checkout -- coq/Effects_gen.v coq/Bindings_gen.v coq/ParamsDefaults_gen.v coq/CircuitAccess_gen.v coq/Nondet_gen.v coq/MachineOps_gen.v" % ROOT)
         json.dump(meta, open(os.path.join(d, "meta.json"), "w"), indent=1)
     return meta
 
